@@ -331,3 +331,290 @@ func ruleD3k(c *Ctx) {
 	}
 	R.Check(dec && clear, "D3k", at, p.Position(f.Pos()), "head moved, length decremented, owner cleared", fmt.Sprintf("Stack.Pop moves the head without %s: Len disagrees with the traversal / the popped item still claims membership (In(stack) true, re-push rejected)", map[bool]string{true: "clearing the popped item's stack pointer", false: "decrementing the length"}[dec]))
 }
+
+// ---------------------------------------------------------------- X10 end roles
+
+// ruleX10: the Front/Back methods of the two ring containers use the end of the
+// ring their name says: Front = root (insert after) / root.next (read, pop) /
+// dqNext; Back = root.prev / dqPrev.
+func ruleX10(c *Ctx, pkg, typ string, floor int) {
+	R := c.R
+	p := c.P
+	R.Rule("X10", "a *Front method of a ring container touches the ring only through root / root.next (direction dqNext), a *Back method only through root.prev (direction dqPrev); ForcePush's eviction of the opposite end is D7's business", floor)
+	for _, f := range p.FuncsIn(pkg) {
+		if f.Decl == nil || f.Decl.Recv == nil || recvNamed(f) != typ {
+			continue
+		}
+		name := f.Decl.Name.Name
+		var want string
+		switch {
+		case len(name) >= 5 && name[len(name)-5:] == "Front":
+			want = "front"
+		case len(name) >= 4 && name[len(name)-4:] == "Back":
+			want = "back"
+		default:
+			continue
+		}
+		force := len(name) > 9 && name[:9] == "ForcePush"
+		recv := recvObject(f)
+		var uses []string
+		bad := ""
+		var visit func(g *Func)
+		visit = func(g *Func) {
+			info := g.Info()
+			walkNoLit(g.Body, func(x ast.Node) bool {
+				switch t := x.(type) {
+				case *ast.SelectorExpr:
+					// <recv>.root[.next|.prev]
+					if t.Sel.Name == "root" {
+						if id, ok := ast.Unparen(t.X).(*ast.Ident); ok && info.Uses[id] == recv {
+							side := "front" // bare root: insert after the root = front
+							if par, ok := p.Parent(t).(*ast.SelectorExpr); ok && par.X == ast.Expr(t) {
+								switch par.Sel.Name {
+								case "prev":
+									side = "back"
+								case "next":
+									side = "front"
+								default:
+									return true // root.Append(…) etc: bare root
+								}
+							}
+							uses = append(uses, side)
+							if side != want {
+								// the eviction inside ForcePush: pop(<opposite end>)
+								if call, ok := p.Parent(p.Parent(t)).(*ast.CallExpr); ok && force && selName(call) == "pop" {
+									return true
+								}
+								bad = fmt.Sprintf("%s at %s", exprStr(p.Parent(t).(ast.Expr)), p.Position(t.Pos()))
+							}
+						}
+					}
+				case *ast.Ident:
+					if t.Name == "dqNext" || t.Name == "dqPrev" {
+						if _, isConst := info.Uses[t].(*types.Const); isConst {
+							side := map[string]string{"dqNext": "front", "dqPrev": "back"}[t.Name]
+							uses = append(uses, side)
+							if side != want {
+								bad = fmt.Sprintf("%s at %s", t.Name, p.Position(t.Pos()))
+							}
+						}
+					}
+				}
+				return true
+			})
+			for _, l := range g.Lits {
+				visit(l)
+			}
+		}
+		visit(f)
+		if len(uses) == 0 {
+			continue // delegates to another method; nothing to decide here
+		}
+		R.Check(bad == "", "X10", f.Name+"/end", p.Position(f.Pos()), "uses the "+want+" end only",
+			fmt.Sprintf("%s operates on the %s end of the ring through %s: the operation acts on the wrong end (FIFO/LIFO order and the documented position are broken)", f.Name, map[string]string{"front": "back", "back": "front"}[want], bad))
+	}
+}
+
+// ---------------------------------------------------------------- K6 / K7
+
+func ruleBroker3(c *Ctx) {
+	R := c.R
+	p := c.P
+	R.Rule("K6", "channel roles agree on both sides: Subscribe sends the new channel on subCh and the event loop adds what it receives from subCh; Unsubscribe sends on unsubCh and the event loop deletes what it receives from unsubCh", 4)
+	R.Rule("K7", "sendMsg is a two-arm select (ctx.Done, the send) without default: a slow subscriber delays the worker, it is never skipped", 1)
+	sentOn := func(fname string) map[string]bool {
+		out := map[string]bool{}
+		f := p.FuncNamed(fname)
+		if f == nil {
+			return out
+		}
+		ast.Inspect(f.Body, func(x ast.Node) bool {
+			if ss, ok := x.(*ast.SendStmt); ok {
+				if se, ok := ast.Unparen(ss.Chan).(*ast.SelectorExpr); ok {
+					out[se.Sel.Name] = true
+				}
+			}
+			return true
+		})
+		return out
+	}
+	sub, unsub := sentOn("pubsub.(*Broker).Subscribe"), sentOn("pubsub.(*Broker).Unsubscribe")
+	R.Check(len(sub) == 1 && sub["subCh"], "K6", "pubsub.(*Broker).Subscribe/channel", "-", "sends on subCh only", fmt.Sprintf("Subscribe sends its channel on %v, not (only) on subCh: the subscription is never registered (or is registered as a removal)", keysOf(sub)))
+	R.Check(len(unsub) == 1 && unsub["unsubCh"], "K6", "pubsub.(*Broker).Unsubscribe/channel", "-", "sends on unsubCh only", fmt.Sprintf("Unsubscribe sends its channel on %v, not (only) on unsubCh: the subscriber is never removed and keeps receiving (a full, unread channel then blocks the dispatch worker)", keysOf(unsub)))
+	if f := p.FuncNamed("pubsub.(*Broker).startQueueWorkers"); f != nil {
+		found := map[string]string{}
+		var visit func(g *Func)
+		visit = func(g *Func) {
+			info := g.Info()
+			walkNoLit(g.Body, func(x ast.Node) bool {
+				cc, ok := x.(*ast.CommClause)
+				if !ok {
+					return true
+				}
+				as, ok := cc.Comm.(*ast.AssignStmt)
+				if !ok || len(as.Lhs) != 1 || len(as.Rhs) != 1 {
+					return true
+				}
+				ue, ok := ast.Unparen(as.Rhs[0]).(*ast.UnaryExpr)
+				if !ok || ue.Op != token.ARROW {
+					return true
+				}
+				se, ok := ast.Unparen(ue.X).(*ast.SelectorExpr)
+				if !ok || (se.Sel.Name != "subCh" && se.Sel.Name != "unsubCh") {
+					return true
+				}
+				v := info.Defs[as.Lhs[0].(*ast.Ident)]
+				for _, s := range cc.Body {
+					ast.Inspect(s, func(y ast.Node) bool {
+						if call, ok := y.(*ast.CallExpr); ok && len(call.Args) >= 1 {
+							if id, ok := ast.Unparen(call.Args[0]).(*ast.Ident); ok && info.Uses[id] == v {
+								found[se.Sel.Name] = selName(call)
+							}
+						}
+						return true
+					})
+				}
+				return true
+			})
+			for _, l := range g.Lits {
+				visit(l)
+			}
+		}
+		visit(f)
+		adders := map[string]bool{"Ensure": true, "Store": true, "Set": true, "Add": true, "EnsureStore": true}
+		R.Check(adders[found["subCh"]], "K6", "pubsub.(*Broker).startQueueWorkers/subCh", p.Position(f.Pos()), "received channel is added ("+found["subCh"]+")", "what the event loop receives from subCh is not added to the subscriber set ("+found["subCh"]+")")
+		R.Check(found["unsubCh"] == "Delete", "K6", "pubsub.(*Broker).startQueueWorkers/unsubCh", p.Position(f.Pos()), "received channel is deleted", "what the event loop receives from unsubCh is not deleted from the subscriber set ("+found["unsubCh"]+")")
+	}
+	if f := p.FuncNamed("pubsub.(*Broker).sendMsg"); f != nil {
+		info := f.Info()
+		arms, hasDefault, hasCtx, hasSend := 0, false, false, false
+		walkNoLit(f.Body, func(x ast.Node) bool {
+			cc, ok := x.(*ast.CommClause)
+			if !ok {
+				return true
+			}
+			arms++
+			switch cm := cc.Comm.(type) {
+			case nil:
+				hasDefault = true
+			case *ast.SendStmt:
+				hasSend = true
+			case *ast.ExprStmt:
+				if isCtxDoneRecv(info, cm) {
+					hasCtx = true
+				}
+			}
+			return true
+		})
+		R.Check(arms == 2 && hasCtx && hasSend && !hasDefault, "K7", "pubsub.(*Broker).sendMsg/select", p.Position(f.Pos()), "select { <-ctx.Done(); ch <- m }", "sendMsg's select is not exactly {ctx.Done, send}: with a default (or another) arm a subscriber that is momentarily busy silently misses the message")
+	} else {
+		R.Fail("K7", "pubsub.(*Broker).sendMsg/select", "-", "sendMsg not found")
+	}
+}
+
+func keysOf(m map[string]bool) []string {
+	var out []string
+	for k := range m {
+		out = append(out, k)
+	}
+	return out
+}
+
+// ---------------------------------------------------------------- T1c
+
+func ruleT1c(c *Ctx) {
+	R := c.R
+	p := c.P
+	R.Rule("T1c", "Iterator.Close passes through doClose on every path, and Iterator.Next stores the value it read into the iterator before it reports true", 2)
+	if f := p.FuncNamed("fun.(*Iterator).Close"); f != nil {
+		info := f.Info()
+		fl := newFlow(f)
+		entry := blockNode{fl.G.Blocks[0], -1}
+		_, skips := fl.pathToExitAvoiding(entry, func(n ast.Node) bool {
+			hit := false
+			ast.Inspect(n, func(y ast.Node) bool {
+				if call, ok := y.(*ast.CallExpr); ok && callName(info, call) == "fun.(*Iterator).doClose" {
+					hit = true
+				}
+				return !hit
+			})
+			return hit
+		})
+		R.Check(!skips, "T1c", "fun.(*Iterator).Close/doClose", p.Position(f.Pos()), "doClose on every path", "Iterator.Close can return without doClose: the iterator is not marked closed and its context is not cancelled, so background readers/workers keep running and later reads still yield items")
+	} else {
+		R.Fail("T1c", "fun.(*Iterator).Close/doClose", "-", "not found")
+	}
+	if f := p.FuncNamed("fun.(*Iterator).Next"); f != nil {
+		info := f.Info()
+		recv := recvObject(f)
+		fl := newFlow(f)
+		var store ast.Node
+		walkNoLit(f.Body, func(x ast.Node) bool {
+			if as, ok := x.(*ast.AssignStmt); ok && len(as.Lhs) == 1 {
+				if se, ok := ast.Unparen(as.Lhs[0]).(*ast.SelectorExpr); ok && se.Sel.Name == "value" {
+					if id, ok := ast.Unparen(se.X).(*ast.Ident); ok && info.Uses[id] == recv {
+						store = as
+					}
+				}
+			}
+			return true
+		})
+		ok := store != nil
+		walkNoLit(f.Body, func(x ast.Node) bool {
+			if rs, isRet := x.(*ast.ReturnStmt); isRet && len(rs.Results) == 1 {
+				if tv, has := info.Types[rs.Results[0]]; has && tv.Value != nil && tv.Value.String() == "true" {
+					if store == nil || !fl.Dominates(store, rs) {
+						ok = false
+					}
+				}
+			}
+			return true
+		})
+		R.Check(ok, "T1c", "fun.(*Iterator).Next/stores-value", p.Position(f.Pos()), "i.value = val dominates `return true`", "Iterator.Next reports true without having stored the value it read: Value() returns the previous (or zero) element — every element is lost and the last one repeated")
+	} else {
+		R.Fail("T1c", "fun.(*Iterator).Next/stores-value", "-", "not found")
+	}
+}
+
+// ---------------------------------------------------------------- H1b
+
+func ruleH1b(c *Ctx) {
+	R := c.R
+	p := c.P
+	R.Rule("H1b", "where hdrhist adds a delta to one bucket (counts[i] += d) the same delta is added to totalCount in the same block", 1)
+	n := 0
+	for _, f := range p.FuncsIn("dt/hdrhist") {
+		walkNoLit(f.Body, func(x ast.Node) bool {
+			as, ok := x.(*ast.AssignStmt)
+			if !ok || as.Tok != token.ADD_ASSIGN || len(as.Lhs) != 1 {
+				return true
+			}
+			ix, ok := ast.Unparen(as.Lhs[0]).(*ast.IndexExpr)
+			if !ok {
+				return true
+			}
+			se, ok := ast.Unparen(ix.X).(*ast.SelectorExpr)
+			if !ok || se.Sel.Name != "counts" {
+				return true
+			}
+			n++
+			delta := exprStr(as.Rhs[0])
+			same := false
+			if blk, ok := p.Parent(as).(*ast.BlockStmt); ok {
+				for _, s := range blk.List {
+					if a2, ok := s.(*ast.AssignStmt); ok && a2.Tok == token.ADD_ASSIGN && len(a2.Lhs) == 1 {
+						if t, ok := ast.Unparen(a2.Lhs[0]).(*ast.SelectorExpr); ok && t.Sel.Name == "totalCount" && exprStr(a2.Rhs[0]) == delta {
+							same = true
+						}
+					}
+				}
+			}
+			R.Check(same, "H1b", fmt.Sprintf("%s/delta(%s)", f.Name, delta), p.Position(as.Pos()), "totalCount += "+delta+" in the same block",
+				fmt.Sprintf("%s adds %s to a bucket but not the same amount to totalCount: TotalCount() drifts from the number of recorded occurrences and the quantile walk stops early or runs past the data", f.Name, delta))
+			return true
+		})
+	}
+	if n == 0 {
+		R.Fail("H1b", "hdrhist/record", "-", "no `counts[i] += d` store found: the recording primitive moved")
+	}
+}
